@@ -4,6 +4,7 @@ import (
 	"fmt"
 	"math"
 	"math/big"
+	"strings"
 )
 
 var (
@@ -231,6 +232,10 @@ func (m *Dev) abs(ev Event, got []Msg, signals int) *Violation {
 			st.actDir = 0
 		}
 	}
+	if a == nil || a.NoInfo {
+		// whatever this axis transmitted before went to another destination
+		st.lastMap, st.lastCh, st.lastEpoch = m.Map, m.Ch, m.destEpoch
+	}
 	if a == nil {
 		if len(got) != 0 {
 			return viol("unmapped_axis_emits", fmt.Sprintf("%s is not mapped in %q but emitted %s", ev, m.D.Mappings[m.Map].Name, fmtMsgs(got)), "C06")
@@ -268,23 +273,35 @@ func (m *Dev) abs(ev Event, got []Msg, signals int) *Violation {
 			return nil
 		}
 	}
-	sameInput := st.seen && st.lastRaw == ev.Value && st.lastMap == m.Map
+	// Repetitions. Not re-sending a position whose values the receiver already has is fine (the implementation keeps
+	// the last shaped value per axis for that). Where the values go depends on the mapping and the channel, though:
+	// a position that repeats the previous one after a channel or mapping action is judged like any other - by
+	// what the receiver then holds at the destination that is current now.
+	prevMap, prevCh, prevEpoch := st.lastMap, st.lastCh, st.lastEpoch
+	sameDest := prevMap == m.Map && prevCh == m.Ch
+	sameInput := st.seen && st.lastRaw == ev.Value && prevEpoch == m.destEpoch
 	first := !st.seen // nothing of this axis has been transmitted yet: its first position is not a repetition of anything
-	st.seen, st.lastRaw, st.lastMap = true, ev.Value, m.Map
+	st.seen, st.lastRaw, st.lastMap, st.lastCh, st.lastEpoch = true, ev.Value, m.Map, m.Ch, m.destEpoch
+	repeatOther := false
 	if !first && s.Cmp(st.last) == 0 {
 		m.probe("axis_duplicate")
-		if len(got) == 0 {
+		switch {
+		case len(got) == 0 && sameDest:
 			return nil
-		}
-		if sameInput || s.Sign() == 0 {
-			// the same position again in the same mapping (or rest again): nothing may be re-sent
+		case len(got) == 0:
+			m.probe("axis_duplicate_other_destination")
+			repeatOther = true
+		case prevEpoch == m.destEpoch && (sameInput || s.Sign() == 0):
+			// the same position again, nothing in between that could have changed where it goes (or rest again):
+			// nothing may be re-sent
 			return viol("duplicate_not_suppressed", fmt.Sprintf("%s repeats the previous shaped value but emitted %s", ev, fmtMsgs(got)), "C06")
+		default:
+			// a different position (or mapping) that happens to shape to exactly the same rational: the float
+			// computation may tell them apart; a re-sent value is judged like any other
+			m.probe("axis_exact_coincidence")
 		}
-		// a different position (or mapping) that happens to shape to exactly the same rational: the float
-		// computation may tell them apart; a re-sent value is judged like any other
-		m.probe("axis_exact_coincidence")
 	}
-	if !first && len(got) == 0 && abs(new(big.Rat).Sub(s, st.last)).Cmp(big.NewRat(1, 1000000000)) < 0 {
+	if !first && sameDest && len(got) == 0 && abs(new(big.Rat).Sub(s, st.last)).Cmp(big.NewRat(1, 1000000000)) < 0 {
 		// mathematically different from the previous shaped value by less than 1e-9 (two mappings with
 		// different deadzones can map neighbouring positions onto the same float): not re-sending the same
 		// transmitted value is fine
@@ -331,10 +348,20 @@ func (m *Dev) abs(ev Event, got []Msg, signals int) *Violation {
 			v = new(big.Rat).Sub(new(big.Rat).Mul(rat(2), f), rOne)
 		}
 		exact := new(big.Rat).Mul(rat(16383), new(big.Rat).Quo(new(big.Rat).Add(v, rOne), rat(2)))
-		if len(got) != 1 || got[0].Kind != 'B' || got[0].Ch != ch {
-			return viol("bend_shape", fmt.Sprintf("%s must transmit one pitch bend on channel %d, got %s", ev, ch, fmtMsgs(got)), "C06")
+		var val int
+		if repeatOther && len(got) == 0 {
+			// the position repeats the one transmitted to another destination: nothing needs to be sent if this
+			// channel's pitch bend already is where it belongs (a receiver starts at the centre)
+			var have bool
+			if val, have = m.Recv.Bend[ch]; !have {
+				val = 8192
+			}
+		} else {
+			if len(got) != 1 || got[0].Kind != 'B' || got[0].Ch != ch {
+				return viol("bend_shape", fmt.Sprintf("%s must transmit one pitch bend on channel %d, got %s", ev, ch, fmtMsgs(got)), "C06")
+			}
+			val = got[0].A
 		}
-		val := got[0].A
 		if exactReq {
 			lo, hi := floorCeil(exact)
 			if v.Sign() == 0 {
@@ -597,6 +624,9 @@ func (m *Dev) actionAxis(ev Event, a *AxisDesc, st *axisState, f *big.Rat, canNe
 	}
 	if o := act(-newDir); o == "cc_learning" && n != "cc_learning" {
 		m.Learning = false
+	}
+	if strings.HasPrefix(n, "channel_") || strings.HasPrefix(n, "mapping_") {
+		m.destEpoch++
 	}
 	switch n {
 	case "panic":
